@@ -18,7 +18,7 @@ macro_rules! gate {
         } else if $args.len() != 0 {
             Err(Error::WrongArgNumber($name, $args.len()))
         } else {
-            Ok(op::$op(regs))
+            Ok(op::$op(regs).dgr())
         }
     }};
     ($name:expr, 2, $op:ident, $regs:expr, $args:expr) => {{
